@@ -2,6 +2,9 @@ import AlgoVerif.Model.C16
 import AlgoVerif.Spec.C16
 import AlgoVerif.Proofs.C16Order
 import AlgoVerif.Proofs.C16Instances
+import AlgoVerif.Proofs.C16History
+import AlgoVerif.Proofs.C16Store
+import AlgoVerif.Generated.C16
 /-!
 # C16 — property theorems (helper lemmas in `Proofs/C16*.lean`)
 
@@ -20,6 +23,62 @@ Vocabulary (defined in `Proofs/C16Basic.lean`, `Proofs/C16Algebra.lean`):
   `memAll`, `card`, `eq`, `subset`, `unionAll`, `interAll`, `diffAll`.
 -/
 open AlgoVerif AlgoVerif.C16 AlgoVerif.C16.Spec
+
+/-! ## the hypotheses are met by what the correspondence runs -/
+
+/-- the callbacks the line-protocol driver (and the Go harness: `==`, ascending and descending `int`
+comparison) runs the Model with are lawful, and the driver's mirror of `math/rand`'s `Shuffle` over the
+scripted source is a lawful shuffle — so every theorem below applies to every correspondence run -/
+theorem C16_driver_instances_lawful :
+    ImplLaw (fun _ => True) Eq (.unordered Driver.eqI) ∧ ImplLaw (fun _ => True) Eq (.stable Driver.eqI) ∧
+    ImplLaw (fun _ => True) Eq (.sorted Driver.cmpAsc) ∧ ImplLaw (fun _ => True) Eq (.sorted Driver.cmpDesc) ∧
+    ShLaw Driver.shuffle :=
+  ⟨eqI_law, eqI_law, cmpAsc_law, cmpDesc_law, shuffle_law⟩
+
+/-- the Model has one transcription of what `set.go`, `stable.go` and `sorted.go` repeat: its only
+implementation-dependent functions are `find`, one round of `Add`, and `All`.  `bin/pre-C16` compares the
+method texts of the three files on every run (`Generated/C16.lean`): the unordered and the stable set
+differ exactly in `All`, the stable and the sorted set exactly in `Add`/`add`/`find` (up to the receiver
+type and the name of the callback field).  Editing one copy makes this theorem fail. -/
+theorem C16_shared_transcription_matches_source :
+    Generated.set_unordered_stable_differ = ["All"] ∧
+    Generated.set_stable_sorted_differ = ["Add", "find", "add"] := by
+  decide
+
+/-! ## all histories -/
+
+/-- **Every finite history.**  Start from any file of freshly constructed sets of any mix of the three
+implementations (lawful callbacks), run any list of operations — Add, Remove, RemoveAll, Contains, Size,
+IsEmpty, All, Equal, IsSubset, IsSuperset, Clone, CloneEmpty, New, Union/Intersection/Difference with any
+number of operands taken from any registers (also the receiver itself), results stored into any register
+— with any lawful shuffle: the Model never panics or diverges, every observation agrees with the one the
+abstract finite sets of `Spec.srun` give (`TraceRel`: equal Booleans and sizes, element listings equal as
+sets), and in the final state every register holds a valid set object (`WF0`, which for `sorted` includes
+comparator order) denoting the abstract set (`Rel`).  The theorems below are the single steps; they also
+give the stored order for `stable` and `sorted` in every such reachable state. -/
+theorem C16_history_refines {α σ : Type} [DecidableEq α] {sh : Shuffle σ} (hsh : ShLaw sh)
+    (impls : List (Impl α)) (himpls : ∀ impl ∈ impls, ImplLaw (fun _ => True) Eq impl)
+    (ops : List (Op α)) (hops : ∀ op ∈ ops, op.Lawful) (g : σ) :
+    ∃ regs' g' obs, runOps sh ops (impls.map MSet.new, g) = .ok ((regs', g'), obs) ∧
+      Rel regs' (srun (ops.map Op.abs) (impls.map fun _ => FSet.empty)).1 ∧
+      TraceRel obs (srun (ops.map Op.abs) (impls.map fun _ => FSet.empty)).2 := by
+  obtain ⟨st', obs, h₁, h₂, h₃⟩ := runOps_refines hsh ops _ (impls.map MSet.new, g) (rel_init impls himpls) hops
+  exact ⟨st'.1, st'.2, obs, h₁, h₂, h₃⟩
+
+example : ∃ regs' g' obs,
+    runOps revShuffle [.add 0 [3, 1], .add 1 [1, 2], .union 2 0 [1, 0], .equal 2 1, .all 2]
+      ([Impl.unordered Driver.eqI, .sorted Driver.cmpDesc, .stable Driver.eqI].map MSet.new, ()) = .ok ((regs', g'), obs) ∧
+    TraceRel obs (srun ([Op.add 0 [3, 1], .add 1 [1, 2], .union 2 0 [1, 0], .equal 2 1, .all 2].map Op.abs)
+      ([Impl.unordered Driver.eqI, .sorted Driver.cmpDesc, .stable Driver.eqI].map fun _ => FSet.empty)).2 := by
+  obtain ⟨r, g, o, h, _, ht⟩ := C16_history_refines revShuffle_law
+    [Impl.unordered Driver.eqI, .sorted Driver.cmpDesc, .stable Driver.eqI]
+    (by intro impl h; simp at h; rcases h with rfl | rfl | rfl
+        · exact eqI_law
+        · exact cmpDesc_law
+        · exact eqI_law)
+    [.add 0 [3, 1], .add 1 [1, 2], .union 2 0 [1, 0], .equal 2 1, .all 2]
+    (by intro op h; simp at h; rcases h with rfl | rfl | rfl | rfl | rfl <;> trivial) ()
+  exact ⟨r, g, o, h, ht⟩
 
 /-! ## refinement of the single-set operations, for each implementation -/
 
@@ -183,18 +242,68 @@ example : ∃ t g', exDesc.difference revShuffle [exUnordered, exDesc] () = .ok 
     t.impl = exDesc.impl ∧ t.members = FSet.diffAll exDesc.members ([exUnordered, exDesc].map (·.members)) :=
   C16_difference_spec revShuffle_law exDesc_wf _ _
 
+/-! ## operands are not modified -/
+
+/-- **No operand is modified** — the part of it that can be proved of a Model.  `Model/C16.lean` re-runs
+Union / Intersection / Difference on set objects that carry the identity and capacity of the backing
+array of their member slice (`HSet`) and records every array written (`Store`), with Go's rules for
+`make`, `copy`, `append` and re-slicing (capacity growth is an arbitrary function).  For any receiver and
+operands — any implementations, any aliasing between them, any store — the call returns the same set as
+the functional Model, and every array it writes was allocated by the call itself (`WritesOnlyFresh`): the
+only object written is the `Clone`/`CloneEmpty` made at the start, whose array is new, and a reallocating
+`append` moves it to another new array.  Hence no array reachable from the receiver, an operand or any
+other existing set object changes.  (That the Go code follows these rules is what the harness validates on
+every run: every register other than the destination is compared with its `String()` snapshot after every
+operation.) -/
+theorem C16_algebra_writes_only_fresh_arrays {α σ : Type} {sh : Shuffle σ} (hsh : ShLaw sh) (grow : Nat → Nat)
+    (s : HSet α) (hs : WF0 s.set) (sets : List (HSet α)) (hsets : ∀ u ∈ sets, WF0 u.set) (g : σ) (st : Store) :
+    (∃ t g' st', s.union sh grow sets g st = .ok (t, g', st') ∧
+        s.set.union sh (sets.map (·.set)) g = .ok (t.set, g') ∧ WritesOnlyFresh st st') ∧
+    (∃ t st', s.intersection grow sets st = .ok (t, st') ∧
+        s.set.intersection (sets.map (·.set)) = .ok t.set ∧ WritesOnlyFresh st st') ∧
+    (∃ t g' st', s.difference sh sets g st = .ok (t, g', st') ∧
+        s.set.difference sh (sets.map (·.set)) g = .ok (t.set, g') ∧ WritesOnlyFresh st st') := by
+  have hsets' : ∀ u ∈ sets.map (·.set), WF0 u := by
+    intro u hu
+    obtain ⟨v, hv, rfl⟩ := List.mem_map.1 hu
+    exact hsets v hv
+  refine ⟨?_, ?_, ?_⟩
+  · obtain ⟨r, g', h, _⟩ := MSet.union_spec0 hsh hs (sets.map (·.set)) g
+    obtain ⟨t, st', e, ht, hf⟩ := HSet.union_fresh sh grow s sets g h st
+    exact ⟨t, g', st', e, by rw [ht]; exact h, hf⟩
+  · obtain ⟨r, h, _⟩ := MSet.intersection_spec0 hs (sets.map (·.set)) hsets'
+    obtain ⟨t, st', e, ht, hf⟩ := HSet.intersection_fresh grow s sets h st
+    exact ⟨t, st', e, by rw [ht]; exact h, hf⟩
+  · obtain ⟨r, g', h, _⟩ := MSet.difference_spec0 hsh hs (sets.map (·.set)) g
+    obtain ⟨t, st', e, ht, hf⟩ := HSet.difference_fresh sh s sets g h st
+    exact ⟨t, g', st', e, by rw [ht]; exact h, hf⟩
+
+/-- receiver and operand sharing one backing array (array 0, as after a hypothetical shallow copy), one
+more operand: still only new arrays are written -/
+example : ∃ t g' st', (HSet.mk exStable 0 3).difference revShuffle [HSet.mk exStable 0 3, HSet.mk exAsc 1 4] () ⟨2, []⟩
+    = .ok (t, g', st') ∧ WritesOnlyFresh ⟨2, []⟩ st' := by
+  obtain ⟨_, _, t, g', st', e, _, hf⟩ := C16_algebra_writes_only_fresh_arrays revShuffle_law (fun n => 2 * n)
+    (HSet.mk exStable 0 3) exStable_wf [HSet.mk exStable 0 3, HSet.mk exAsc 1 4] (by
+      intro u hu; simp at hu; rcases hu with rfl | rfl
+      · exact exStable_wf
+      · exact exAsc_wf) () ⟨2, []⟩
+  exact ⟨t, g', st', e, hf⟩
+
 /-! ## iteration order -/
 
 /-- the stable set iterates in insertion order: `All()` yields the stored sequence (no shuffle), `Add`
-appends each new value (`Seq.insertAll`), `Remove` deletes in place (`Seq.eraseAll`), `Union` keeps the
-receiver's sequence as a prefix, `Intersection`/`Difference` are the receiver's sequence filtered.
+appends each new value (`Seq.insertAll`), `Remove` deletes in place (`Seq.eraseAll`), `Union` is the
+receiver's sequence followed, operand by operand, by the values not yet present in the order the operand's
+`All()` yields them (`YieldsOf`: its stored sequence, or some permutation of it for an unordered operand),
+`Intersection`/`Difference` are the receiver's sequence filtered.
 (Stated for every implementation that is not `sorted`, i.e. also for the slice inside the unordered set.) -/
 theorem C16_stable_insertion_order {α σ : Type} [DecidableEq α] {sh : Shuffle σ} (hsh : ShLaw sh) {s : MSet α}
     (h : WF0 s) (hl : s.impl.isSorted = false) (vs : List α) (sets : List (MSet α)) (hsets : ∀ u ∈ sets, WF0 u) (g : σ) :
     (s.impl.isUnordered = false → s.all sh g = .ok (s.members, g)) ∧
     (∃ s', s.add vs = .ok s' ∧ s'.members = Seq.insertAll s.members vs) ∧
     (∃ s', s.remove vs = .ok s' ∧ s'.members = Seq.eraseAll s.members vs) ∧
-    (∃ t g', s.union sh sets g = .ok (t, g') ∧ s.members <+: t.members) ∧
+    (∃ t g' yields, s.union sh sets g = .ok (t, g') ∧ YieldsOf yields sets ∧
+      t.members = FSet.unionAll s.members yields) ∧
     (∃ t, s.intersection sets = .ok t ∧ t.members = FSet.interAll s.members (sets.map (·.members))) ∧
     (∃ t g', s.difference sh sets g = .ok (t, g') ∧ t.members = FSet.diffAll s.members (sets.map (·.members))) := by
   refine ⟨?_, MSet.add_seq0 h hl vs, MSet.remove_seq0 h vs, ?_, ?_, ?_⟩
@@ -202,15 +311,19 @@ theorem C16_stable_insertion_order {α σ : Type} [DecidableEq α] {sh : Shuffle
     obtain ⟨ms, g', h₁, _, hord⟩ := MSet.all_spec hsh s g
     obtain ⟨rfl, rfl⟩ := hord hu
     exact h₁
-  · obtain ⟨t, g', h₁, _, _, _, hpre⟩ := MSet.union_spec0 hsh h sets g
-    exact ⟨t, g', h₁, hpre hl⟩
+  · exact MSet.union_seq0 hsh h hl sets hsets g
   · obtain ⟨t, h₁, hw, _, hm, hsub⟩ := MSet.intersection_spec0 h sets hsets
     refine ⟨t, h₁, sublist_ext h.nodup (hsub hl) FSet.interAll_sublist (fun x => ?_)⟩
     rw [hm, FSet.mem_interAll, forall_mem_map_members sets (x ∈ ·)]
   · obtain ⟨t, g', h₁, _, _, hm⟩ := C16_difference_spec hsh h sets g
     exact ⟨t, g', h₁, hm⟩
 
-example : exStable.impl.isSorted = false ∧ exStable.impl.isUnordered = false := ⟨rfl, rfl⟩
+example : ∃ t g' yields, exStable.union revShuffle [exUnordered, exAsc] () = .ok (t, g') ∧
+    YieldsOf yields [exUnordered, exAsc] ∧ t.members = FSet.unionAll exStable.members yields :=
+  (C16_stable_insertion_order revShuffle_law exStable_wf rfl [] [exUnordered, exAsc] (by
+    intro u hu; simp at hu; rcases hu with rfl | rfl
+    · exact exUnordered_wf
+    · exact exAsc_wf) ()).2.2.2.1
 
 /-- the sorted set iterates in comparator order, for any lawful comparator: the stored sequence is
 strictly ascending for `compare` in every reachable state — initially and after `Add`, `Remove`, `Union`,
@@ -259,32 +372,30 @@ example : ∃ PS g', exAsc.powerset revShuffle () = .ok (PS, g') ∧ PS.members.
   obtain ⟨PS, g', h, _, _, _, hc⟩ := C16_powerset_exact revShuffle_law exAsc_wf ()
   exact ⟨PS, g', h, hc⟩
 
-/-
-Full statement of `partitions_exact` (every set partition exactly once):
-
-  theorem C16_partitions_exact … :
+/-- `Partitions(s)` returns (without panicking, and with recursion depth `Size()+1`) a set of partition
+objects such that: every member is a partition of `s` (non-empty, duplicate-free, pairwise disjoint blocks
+covering exactly the members of `s`); every partition of `s` — given as an arbitrary list of blocks —
+occurs; and no two members consist of the same blocks.  So every set partition occurs exactly once; their
+number is then the Bell number by definition (the harness additionally checks `Size() = Bell(n)` for
+n ≤ 6 on every run — the Bell numbers have no independent definition in core Lean to state it against). -/
+theorem C16_partitions_exact {α σ : Type} {sh : Shuffle σ} (hsh : ShLaw sh) {s : MSet α} (h : WF0 s) (g : σ) :
     ∃ Ps g', s.partitions sh g = .ok (Ps, g') ∧
-      (∀ P ∈ Ps.members, IsPart s P) ∧                                            -- only partitions
+      (∀ P ∈ Ps.members, IsPartition (P.members.map (·.members)) s.members) ∧
       (∀ F : List (List α), IsPartition F s.members →
-          ∃ P ∈ Ps.members, SameFamily (P.members.map (·.members)) F) ∧            -- every partition occurs
-      Ps.members.Pairwise (fun P Q => ¬ FamEq P Q)                                 -- none twice
-      (and hence `Ps.members.length = Bell (s.members.length)`)
-
-Proved below: the first and the third conjunct, i.e. `Partitions(s)` returns (without panicking, with
-recursion depth `Size()+1`) a set of pairwise different partitions of `s`.  Missing: the second conjunct
-(and with it the count).  `Proofs/C16Partitions.lean` already proves the step it needs
-(`partitionsLoop_spec`: for every partition `P` of the tail, the result contains `{head} ∪ P` and, for
-every block `b` of `P`, `P` with the head put into `b`); what is not done is the induction that cuts the
-head out of an arbitrary abstract partition.  On every run the harness checks count = Bell(n),
-distinctness and partition-hood for n ≤ 6 on all four implementations/comparators.
--/
-theorem C16_partitions_exact_partial {α σ : Type} {sh : Shuffle σ} (hsh : ShLaw sh) {s : MSet α} (h : WF0 s) (g : σ) :
-    ∃ Ps g', s.partitions sh g = .ok (Ps, g') ∧
-      (∀ P ∈ Ps.members, IsPart s P) ∧
-      Ps.members.Pairwise (fun P Q => ¬ FamEq P Q) := by
+        ∃ P ∈ Ps.members, SameFamily (P.members.map (·.members)) F) ∧
+      Ps.members.Pairwise (fun P Q => ¬ SameFamily (P.members.map (·.members)) (Q.members.map (·.members))) := by
   obtain ⟨Ps, g', h₁, hspec⟩ := partitions_spec hsh (s.members.length + 1) s h g (by omega)
-  exact ⟨Ps, g', h₁, hspec.sound, hspec.wf.nodup⟩
+  refine ⟨Ps, g', h₁, fun P hP => (hspec.sound P hP).isPartition, fun F hF => ?_, ?_⟩
+  · obtain ⟨P, hP, hrel⟩ := hspec.complete F hF
+    exact ⟨P, hP, sameFamily_of_sameBlock (hspec.sound P hP) hF hrel⟩
+  · refine List.Pairwise.imp ?_ hspec.wf.nodup
+    intro P Q hne hsame
+    exact hne ((famEq_iff_sameFamily P Q).2 hsame)
 
-example : ∃ Ps g', exUnordered.partitions revShuffle () = .ok (Ps, g') ∧ ∀ P ∈ Ps.members, IsPart exUnordered P := by
-  obtain ⟨Ps, g', h, hs, _⟩ := C16_partitions_exact_partial revShuffle_law exUnordered_wf ()
-  exact ⟨Ps, g', h, hs⟩
+example : ∃ Ps g', exUnordered.partitions revShuffle () = .ok (Ps, g') ∧
+    ∃ P ∈ Ps.members, SameFamily (P.members.map (·.members)) [[3, 4], [1]] := by
+  obtain ⟨Ps, g', h, _, hc, _⟩ := C16_partitions_exact revShuffle_law exUnordered_wf ()
+  refine ⟨Ps, g', h, hc _ ⟨?_, ?_, ?_⟩⟩
+  · simp
+  · simp
+  · intro x; simp [exUnordered]; omega
